@@ -29,14 +29,20 @@ def pelt_first_block(cost, m):
     return np.sum(cost.evaluate(cuts), axis=1)
 
 
-def capa_collective_candidates(F, S_prev, t, saving, alpha, betas, m, penalise):
+def penalise(savings, alpha, betas):
+    """the penalised saving of each candidate row (defined by penalised_saving_row; kept
+    uninterpreted in the recursion)"""
+    return savings
+
+
+def capa_collective_candidates(F, S_prev, t, saving, alpha, betas, m):
     """F[s] + penalised saving of the collective anomaly [s, t+1), newest start t+1-m"""
     S = np.concatenate((S_prev, np.array([t]) - m + 1))
     cuts = np.column_stack((S, np.repeat(t + 1, len(S))))
     return F[S] + penalise(saving.evaluate(cuts), alpha, betas)
 
 
-def capa_point_candidate(F, t, saving, alpha, betas, penalise):
+def capa_point_candidate(F, t, saving, alpha, betas):
     """F[t] + penalised saving of the point anomaly [t, t+1)"""
     T = np.array([t])
     cuts = np.column_stack((T, T + 1))
@@ -46,3 +52,23 @@ def capa_point_candidate(F, t, saving, alpha, betas, penalise):
 def capa_prune(candidates, F_new, alpha, betas):
     """a start s can be discarded once F[s] + S(s, t+1) + alpha + sum(betas) < F[t+1]"""
     return candidates + alpha + betas.sum() < F_new
+
+
+def penalised_saving_row(s, alpha, betas):
+    """best over k >= 1 of the k largest savings minus their k per-component penalties,
+    minus the constant penalty (charged once)"""
+    order = (-s).argsort()
+    v = np.cumsum(s[order] - betas) - alpha
+    return v[np.argmax(v)]
+
+
+def penalised_saving_dense(savings, alpha):
+    """all per-component penalties are zero and savings are non-negative: every component
+    is included"""
+    return savings.sum(axis=1) - alpha
+
+
+def penalised_saving_const(savings, alpha, beta):
+    """all per-component penalties equal beta: a component is included iff its saving
+    exceeds beta (equal to the definition whenever the value is >= -alpha)"""
+    return np.maximum(savings - beta, 0.0).sum(axis=1) - alpha
